@@ -378,12 +378,17 @@ func (c *SimpleBreaker) Do(f func() error) (bool, error) {
 		return status.Closed, status.Error
 	}
 	var err error
-	if status.Closed || status.Disabled {
+	// A disabled breaker lets everything through, so the work is
+	// attempted then, too, and that's what we have to say.  Told
+	// "not attempted", a Throttle submits the work (which did run)
+	// again.
+	attempted := status.Closed || status.Disabled
+	if attempted {
 		if f != nil {
 			err = f()
 		}
 	}
-	return status.Closed, err
+	return attempted, err
 }
 
 // GoroutineBreaker makes a SimpleBreaker based on goroutine count.
